@@ -1,5 +1,6 @@
 import OpcuaVerif.Model.C22
 import OpcuaVerif.Lemmas.C22
+import OpcuaVerif.Generated.C22Rows
 
 /-!
 C22 — Keep-alives keep flowing and idle subscriptions expire on time.
@@ -499,6 +500,48 @@ theorem late_request_collects (s : Subn) (k r : Nat) (hc : s.state = .closed)
   subst hc hk
   simp [step, publish, publishWith, maxPublishRequests, sessTickWith, subTickWith, updateStateWith,
     handle, pairLoop, readyToRemove]
+
+/-! ### The rows of the table, regenerated from the source -/
+
+/-- **The model does in every row what the Rust source does** (regenerated obligation): whenever
+`update_state` is handled by row `n ≠ 0`, that row is in the table regenerated from the source,
+with the same action, and executing the row's source-order effect list on the subscription gives
+exactly the model's new state. -/
+theorem rows_sound (s s' : Subn) (t : Bool) (p : Params) (n : Nat) (a : Action)
+    (h : updateState s t p = some (s', n, a)) :
+    (n = 0 ∧ s' = s ∧ a = .none) ∨
+    ∃ r ∈ generatedRows, r.num = n ∧ r.action = a ∧ applyEffs r.effs s = some s' := by
+  unfold updateState updateStateWith at h
+  split at h
+  · cases h
+  · split at h
+    · cases h; right; simp [generatedRows, applyEffs, applyEff]
+    · rename_i hl
+      split at h
+      · cases h; right; simp [generatedRows, applyEffs, applyEff]
+      · repeat' split at h
+        all_goals first
+          | (cases h; simp [generatedRows, applyEffs, applyEff, resetLife, resetKa]; done)
+          | (obtain ⟨h0, h1⟩ := map_startTimer _ _ _ h; cases h1; right
+             try simp only [resetLife] at h0
+             simp [generatedRows, applyEffs, applyEff, resetLife, resetKa, startTimer, h0]; done)
+      · repeat' split at h
+        all_goals first
+          | (cases h; simp [generatedRows, applyEffs, applyEff, resetLife, resetKa]; done)
+          | (obtain ⟨h0, h1⟩ := map_startTimer _ _ _ h; cases h1; right
+             try simp only [resetLife] at h0
+             simp [generatedRows, applyEffs, applyEff, resetLife, resetKa, startTimer, h0]; done)
+      · simp only [act15, Option.map_map, current] at h
+        repeat' split at h
+        all_goals first
+          | (cases h; simp [generatedRows, applyEffs, applyEff, resetLife, resetKa]; done)
+          | (exfalso; simp_all; done)
+          | (obtain ⟨h0, h1⟩ := map_startTimer _ _ _ h; cases h1; right
+             try simp only [resetLife] at h0
+             have hk : s.ka > 1 → s.ka ≠ 0 := by omega
+             simp_all [generatedRows, applyEffs, applyEff, resetLife, resetKa, startTimer, cond15]
+             done)
+      · cases h; simp
 
 /-! ### Every history -/
 
